@@ -382,10 +382,19 @@ fn evaluate_single_inline_expression(
     let heap = Rc::new(RefCell::new(Heap::new()));
 
     // Convert inputs to Values
-    let inputs: IndexMap<String, _> = inputs_given
-        .iter()
-        .map(|(key, value)| (key.clone(), value.to_value(&mut heap.borrow_mut()).unwrap()))
-        .collect();
+    let mut inputs: IndexMap<String, _> = IndexMap::new();
+    for (key, value) in inputs_given {
+        match value.to_value(&mut heap.borrow_mut()) {
+            Ok(converted) => {
+                inputs.insert(key.clone(), converted);
+            }
+            Err(e) => {
+                return ExpressionResult::Error {
+                    error: format!("Failed to convert input '{}': {}", key, e),
+                };
+            }
+        }
+    }
 
     let bindings = Rc::new(Environment::new());
 
@@ -416,6 +425,11 @@ fn evaluate_single_inline_expression(
         match pair.as_rule() {
             Rule::statement => {
                 if let Some(inner_pair) = pair.into_inner().next() {
+                    // A comment is not an expression
+                    if inner_pair.as_rule() == Rule::comment {
+                        continue;
+                    }
+
                     let inner_pairs = inner_pair.into_inner();
 
                     match evaluate_pairs(
